@@ -25,6 +25,32 @@ add("C01", "xenum", "exploration",
     "Keys, nonces, challenges and blinds are fixed alphabets of representatives (boundary scalars 1, 2, N-1, leading-zero, DRBG); entropy is a SHA-256 counter DRBG installed in crypto/rand.Reader.",
     "DESIGN.md 4 C01")
 
+add("C03", "xenum+guard", "exploration",
+    "bounded exhaustive enumeration of byte strings (all strings over a 12-byte alphabet up to length 4/5; every truncation, extension, length-field value up to 2^62-1 in every encoding, byte substitution and bit flip of valid messages) against 36 byte-consuming entry points, each call guarded for panic, allocation and termination in single-threaded worker subprocesses under an address-space limit",
+    "For every target and every generated input: no panic (recovered and reported), no fatal runtime error (a worker killed by the runtime is attributed to the journaled case), TotalAlloc delta within 1 MiB + 64*len (steps) / 64 KiB + 16*len (decoders), and return within the watchdog. About 0.8M calls quick, several million thorough.",
+    "Arbitrary bytes are represented by the structured generators, not by all 256^n strings; allocation is measured per call with runtime.MemStats in a GOMAXPROCS=1 worker; non-termination means no progress for 120 s.",
+    "DESIGN.md 4 C03")
+add("C10", "xenum", "exploration",
+    "bounded exhaustive enumeration of tokens (every single-bit flip of honest tokens, full token x issuer-key matrix incl. cross-type, hand-built Token structs with moved field boundaries) against type-1/type-5 issuer Verify with the RFC 9497 evaluation recomposed from group primitives as accept/reject oracle",
+    "Verify's verdict must equal 'authenticator == VOPRF(key, type||nonce||context||keyid as carried)' on every case; both verdict classes are populated (recomputed authenticators for foreign keys/types form the accept class).",
+    "Reference VOPRF shares circl's group arithmetic with the implementation; keys and inputs are fixed alphabets.",
+    "DESIGN.md 4 C10")
+add("C11", "xenum", "exploration",
+    "bounded exhaustive enumeration of (type x key x input x salt x batch size x ordered pairs of blinds) with caller-supplied blinds plus all shipped interop vectors, comparing request and token bytes across repetitions, interleaved unrelated calls and blinds",
+    "Request creation must be a pure function of its arguments and the finalized token identical under every blind and on every run; the 3 Rust vectors and the 20 Go vectors must reproduce byte for byte (request, decoded response finalization, token).",
+    "Blind alphabets are boundary scalars plus DRBG values; 'every run' is observed as repeated in-process issuance under different issuer randomness.",
+    "DESIGN.md 4 C11")
+add("C18", "xenum", "exploration",
+    "bounded exhaustive enumeration of RSA public keys (every modulus bit length 16..2100/4104 x 4 value patterns x 6 exponents), VOPRF keys and name keys against a hand-written DER/TLV reference and independent key-id computation",
+    "Both SPKI forms round-trip; the RSASSA-PSS form is byte-identical to hand-assembled DER with the literal RFC 9578 AlgorithmIdentifier; each issuer TokenKeyID equals SHA-256 of the independently serialised public key; requests of types 1/2/5 carry its last byte; type-3 requests carry SHA-256 of the hand-serialised name key.",
+    "Trusted: the hand DER encoder and the 63-byte AlgorithmIdentifier literal in checks/c18; crypto/elliptic for the P-384 public key reference.",
+    "DESIGN.md 4 C18")
+add("C20", "xenum", "exploration",
+    "exhaustive enumeration of origin-name lengths 0..65535 x 4 content patterns through the padding functions (hook) and lengths 0..130 / 0..4128 end to end through the real client and issuer with ten neighbour names per name",
+    "unpad(pad(name)) == name and |pad(name)| == 32*max(1,ceil(n/32)) for every length; the registered name is served and every neighbour (last byte changed, shortened, extended, padding-like suffixes) is refused; the wire length equals base + 32*blocks for every request.",
+    "Names are drawn from 2-4 content patterns per length; names that cannot be marshalled (> ~65200 bytes) are outside the end-to-end part.",
+    "DESIGN.md 4 C20")
+
 NOT_APPLICABLE = {}
 
 ALL = ["C%02d" % i for i in range(1, 21)]
